@@ -243,9 +243,14 @@ func (fr *Frame) lockEvent(in ssa.Instruction, mu *Val, acquire bool) {
 		return
 	}
 	only := map[string]bool{}
+	var known []string
 	for _, g := range guarded {
-		only[g] = true
+		if _, ok := vc.heapSorts[g]; ok {
+			only[g] = true
+			known = append(known, g)
+		}
 	}
+	guarded = known
 	pre := fr.cur
 	post := pre.Havoc(only, "lk")
 	for _, g := range guarded {
